@@ -32,7 +32,8 @@ Proof. constructor; cbn; try constructor; unfold dgMaxSendQueueLen, dgMaxRcvQueu
 
 Lemma add_loop_DInv p q : DInv q -> DInv (fst (add_loop p q)).
 Proof.
-  intros [H1 H2 H3 H4 H5]. unfold add_loop. destruct (Z.ltb_spec (zlen (sendQ q)) dgMaxSendQueueLen); cbn [fst].
+  intros [H1 H2 H3 H4 H5]. unfold add_loop. destruct (closedQ q); [constructor; cbn; auto|].
+  destruct (Z.ltb_spec (zlen (sendQ q)) dgMaxSendQueueLen); cbn [fst].
   - constructor; cbn; auto.
     + rewrite H1, app_assoc. reflexivity.
     + rewrite zlen_app1. lia.
@@ -87,7 +88,7 @@ Proof.
   unfold dstep, recv1. destruct (dpanic q); [destruct o; cbn; now rewrite app_nil_r|].
   destruct o; cbn [fst snd]; try (cbn; now rewrite ?app_nil_r).
   - destruct (parked q); [cbn; now rewrite app_nil_r|].
-    unfold add_loop. destruct (_ <? _); cbn; now rewrite app_nil_r.
+    unfold add_loop. destruct (closedQ q); [cbn; now rewrite app_nil_r|]. destruct (_ <? _); cbn; now rewrite app_nil_r.
   - destruct (parked q); [|cbn; now rewrite app_nil_r].
     destruct (closedQ q); [cbn; now rewrite app_nil_r|].
     destruct (sentTok q); [|cbn; now rewrite app_nil_r].
